@@ -34,7 +34,7 @@ abbrev Mcnf : Mat (ZMod 7) := [[1, 1], [0, 6], [1, 0]]
 
 /-- the verifier's expected lifted share is the lift of the dealer's share -/
 theorem expected_of_honest (M : Mat F) (labels : List Nat) (r : List F) (g : G) (id : Nat) :
-    actOnColumn (pick labels id M) (liftColumn r g) = (shareOf M labels r id).map (· • g) := by
+    actOnColumn (Vss.pick labels id M) (liftColumn r g) = (shareOf M labels r id).map (· • g) := by
   simp only [actOnColumn_eq, gdot_lift, shareOf, mulVec, pick_map, List.map_map, Function.comp_def]
 
 /-- **Feldman verification accepts exactly the dealer's value**: against `V = r • g`, the pair
@@ -58,7 +58,7 @@ example := (feldman_verify_iff (F := ZMod 7) (1 : ZMod 7) hg7 M23 [1, 2, 3] [3, 
 
 /-- any share whose length differs from the number of rows of the holder is rejected, whatever `V` -/
 theorem feldman_len_share (g : G) (M : Mat F) (labels : List Nat) (V : List G) (id : Nat) (s : List F)
-    (h : s.length ≠ (pick labels id M).length) : feldmanVerify M labels V g id s = false := by
+    (h : s.length ≠ (Vss.pick labels id M).length) : feldmanVerify M labels V g id s = false := by
   by_contra hc
   have hc : feldmanVerify M labels V g id s = true := by simpa using hc
   unfold feldmanVerify at hc
@@ -88,7 +88,7 @@ theorem feldman_vv_entry (g : G) (M : Mat F) (labels : List Nat) (V : List G) (i
     (k : Nat) (δ : G) (hδ : δ ≠ 0) (hk : k < V.length)
     (hacc : feldmanVerify M labels V g id s = true) :
     feldmanVerify M labels (V.set k (V.getD k 0 + δ)) g id s = true ↔
-      ∀ row ∈ pick labels id M, row.getD k 0 = 0 := by
+      ∀ row ∈ Vss.pick labels id M, row.getD k 0 = 0 := by
   unfold feldmanVerify at hacc ⊢
   simp only [Bool.and_eq_true, liftedEq_iff, actOnColumn_eq, List.length_set] at hacc ⊢
   obtain ⟨⟨h1, h2⟩, h3⟩ := hacc
@@ -151,9 +151,9 @@ theorem vv_op_verifies_sum (g : G) (M : Mat F) (labels : List Nat) (V W : List G
   unfold feldmanVerify
   simp only [Bool.and_eq_true, liftedEq_iff, actOnColumn_eq, beq_iff_eq, List.length_zipWith]
   refine ⟨⟨by omega, hid⟩, ?_⟩
-  have e1 : (List.map (fun row => gdot row (List.zipWith (· + ·) V W)) (pick labels id M))
-      = List.zipWith (· + ·) ((pick labels id M).map fun row => gdot row V)
-          ((pick labels id M).map fun row => gdot row W) := by
+  have e1 : (List.map (fun row => gdot row (List.zipWith (· + ·) V W)) (Vss.pick labels id M))
+      = List.zipWith (· + ·) ((Vss.pick labels id M).map fun row => gdot row V)
+          ((Vss.pick labels id M).map fun row => gdot row W) := by
     rw [List.zipWith_map_left, List.zipWith_map_right, List.zipWith_self]
     exact List.map_congr_left fun row _ => gdot_add row V W hlen
   rw [e1, ← hs, ← ht, shareAdd]
@@ -205,11 +205,11 @@ theorem extend_by_identity_verify (g : G) (M E : Mat F) (labels : List Nat) (V :
     feldmanVerify (List.zipWith (· ++ ·) M E) labels (V ++ List.replicate m 0) g id s
       = feldmanVerify M labels V g id s := by
   unfold feldmanVerify
-  have hE : (pick labels id E).length = (pick labels id M).length := pick_length _ _ _ _ hlen
-  have hr : ∀ row ∈ pick labels id M, row.length = V.length := by
+  have hE : (Vss.pick labels id E).length = (Vss.pick labels id M).length := pick_length _ _ _ _ hlen
+  have hr : ∀ row ∈ Vss.pick labels id M, row.length = V.length := by
     intro row hrow
     apply hM
-    simp only [pick, List.mem_map, List.mem_filter] at hrow
+    simp only [Vss.pick, List.mem_map, List.mem_filter] at hrow
     obtain ⟨⟨l, r⟩, ⟨hz, _⟩, rfl⟩ := hrow
     exact (List.of_mem_zip hz).2
   rw [pick_zipWith, extend_by_identity _ _ V m hE hr]
@@ -239,7 +239,7 @@ example := pedersen_verify_complete (F := ZMod 7) (1 : ZMod 7) (3 : ZMod 7) Mcnf
 
 /-- Pedersen: wrong share length / wrong verification-vector length are rejected -/
 theorem pedersen_len_share (g h : G) (M : Mat F) (labels : List Nat) (V : List G) (id : Nat) (s b : List F)
-    (hne : s.length ≠ (pick labels id M).length ∨ b.length ≠ (pick labels id M).length) :
+    (hne : s.length ≠ (Vss.pick labels id M).length ∨ b.length ≠ (Vss.pick labels id M).length) :
     pedersenVerify M labels V g h id s b = false := by
   by_contra hc
   have hc : pedersenVerify M labels V g h id s b = true := by simpa using hc
